@@ -45,6 +45,10 @@ class PtypeHooks(Hooks):
         if kind == 'mul':
             cls = type(p).__name__
             doc_pt = self.doc.classes.get(cls) if cls != 'Plane' else None
+            pid = ev['a'][MUL[fn][0]][1:]
+            if 'ptype' in it.meta.get(pid, {}).get('kw', []):
+                doc_pt = None       # the caller chose the plane type explicitly: the table row of that type applies
+                it.probe('explicit_ptype_kw')
             act_pt = str(p.ptype)
             if doc_pt is not None:
                 it.probe('check:class_applies')
@@ -128,7 +132,7 @@ class PtypeScenario(Scenario):
         props = ['prop:%s' % w for w in WTYPES]
         self.must_hit = cells + props + ['refuse_after_transition', 'class:Pupilxnone', 'class:Pupilxpupil',
                                          'class:Imagexnone', 'class:Imageximage', 'class:Tiltxpupil', 'class:Tiltximage',
-                                         'class:DispersiveTiltxpupil', 'class:Rotatexpupil', 'class:Flipxpupil']
+                                         'class:DispersiveTiltxpupil', 'class:Rotatexpupil', 'class:Flipxpupil', 'explicit_ptype_kw']
         self.probe_names = self.must_hit + ['coldwarm_audit']
 
     @property
@@ -172,6 +176,8 @@ class PtypeScenario(Scenario):
         add('Image', 'IMGA', k={'amplitude': '@a1'})
         add('Plane', 'PLN', k={'amplitude': '@a0', 'pixelscale': ph['dx']})
         add('Tilt', 'TLT', k={'x': 2e-6 / ph['f'], 'y': -3e-6 / ph['f']})
+        add('Tilt', 'TLTP', k={'x': 1e-6 / ph['f'], 'y': 1e-6 / ph['f'], 'ptype': 'pupil'})
+        add('DispersiveTilt', 'DSPI', k={'trace': [0.5, 0.0], 'dispersion': [1e-3, ph['wl'] - 2e-8], 'ptype': 'image'})
         add('DispersiveTilt', 'DSP', k={'trace': [0.5, 0.0], 'dispersion': [1e-3, ph['wl'] - 2e-8]})
         add('Grism', 'GRS', k={'trace': [0.25, 0.0], 'dispersion': [1e-3, ph['wl'] - 1e-8]})
         add('Rotate', 'ROT', k={'angle': 90})
@@ -197,6 +203,8 @@ class PtypeScenario(Scenario):
         P['IMGA'] = {'pt': cls['Image'], 'px': None, 'arr': True, 'shape': S1, 'fl': None, 'tilt': False}
         P['PLN'] = {'pt': 'none', 'px': dx, 'arr': True, 'shape': S0, 'fl': None, 'tilt': False}
         P['TLT'] = {'pt': cls['Tilt'], 'px': None, 'arr': False, 'shape': (), 'fl': None, 'tilt': True}
+        P['TLTP'] = {'pt': 'pupil', 'px': None, 'arr': False, 'shape': (), 'fl': None, 'tilt': True}
+        P['DSPI'] = {'pt': 'image', 'px': None, 'arr': False, 'shape': (), 'fl': None, 'tilt': True}
         P['DSP'] = {'pt': cls['DispersiveTilt'], 'px': None, 'arr': False, 'shape': (), 'fl': None, 'tilt': True}
         P['GRS'] = {'pt': 'tilt', 'px': None, 'arr': False, 'shape': (), 'fl': None, 'tilt': True}
         P['ROT'] = {'pt': cls['Rotate'], 'px': None, 'arr': False, 'shape': (), 'fl': None, 'tilt': False, 'rare': True}
@@ -307,6 +315,11 @@ class PtypeScenario(Scenario):
                     if ev is not None:
                         prog.append(ev)
                     continue
+                if rng.random() < 0.08:
+                    cp = dict(w, id=new_id)
+                    prog.append({'c': c, 'fn': 'deepcopy', 'a': ['@' + w['id']], 'id': new_id, 't': {'copy': True}})
+                    ws.append(cp)
+                    continue
                 if r < refuse_rate + 0.25 and w['t'] in ('pupil', 'image'):
                     ev, res = self.prop_event(rng, world, c, w, new_id)
                     prog.append(ev)
@@ -399,6 +412,17 @@ class PtypeScenario(Scenario):
         for meth in PROP:
             ev, _ = self.prop_event(rng, world, 0, wn, 'np_' + meth, method=meth)
             events.append(ev)
+        events.append({'c': 0, 'fn': 'deepcopy', 'a': ['@pu'], 'id': 'pu_copy', 't': {'copy': True}})
+        for meth in PROP:
+            ev, res = self.prop_event(rng, world, 0, dict(m, id='pu_copy'), 'cim_' + meth, method=meth)
+            events.append(ev)
+            events.append({'c': 0, 'fn': 'deepcopy', 'a': ['@' + res['id']], 'id': 'cic_' + meth, 't': {'copy': True}})
+            ev2, _ = self.prop_event(rng, world, 0, dict(res, id='cic_' + meth), 'cpu_' + meth, method='propagate_dft')
+            events.append(ev2)
+        for pid in ('TLTP', 'DSPI'):
+            for w in self.wf_models():
+                n += 1
+                events.append({'c': 0, 'fn': 'Plane.multiply', 'a': ['@' + pid, '@' + w['id']], 'id': 'r%d' % n})
         # tilt on a pupil with arrays, then DFT (tilt-carrying wavefront is propagatable by DFT)
         events.append({'c': 0, 'fn': 'Plane.multiply', 'a': ['@TLT', '@pu'], 'id': 'pt'})
         mt = dict(m, id='pt', tilt=True)
